@@ -122,15 +122,23 @@ fn family_of(n: u64) -> Family {
 
 /// An OPEN frame as a remote speaker would put it on the wire.
 fn open_frame(asn: u32, hold: u16, rid: u32) -> Vec<u8> {
+    let as2: u16 = if asn > 65535 { 23456 } else { asn as u16 };
+    open_frame_wire(as2, Some(asn), hold, rid)
+}
+
+/// OPEN with an explicit 2-octet My-AS field and an optional 4-octet-AS capability
+/// (the two may disagree: RFC 6793 says the capability counts only when My-AS is AS_TRANS).
+fn open_frame_wire(as2: u16, cap4: Option<u32>, hold: u16, rid: u32) -> Vec<u8> {
     let mut caps: Vec<u8> = Vec::new();
     // MP IPv4 unicast
     caps.extend_from_slice(&[1, 4, 0, 1, 0, 1]);
     // 4-octet AS
-    caps.extend_from_slice(&[65, 4]);
-    caps.extend_from_slice(&asn.to_be_bytes());
+    if let Some(asn) = cap4 {
+        caps.extend_from_slice(&[65, 4]);
+        caps.extend_from_slice(&asn.to_be_bytes());
+    }
     let mut body: Vec<u8> = Vec::new();
     body.push(4);
-    let as2: u16 = if asn > 65535 { 23456 } else { asn as u16 };
     body.extend_from_slice(&as2.to_be_bytes());
     body.extend_from_slice(&hold.to_be_bytes());
     body.extend_from_slice(&rid.to_be_bytes());
@@ -147,7 +155,7 @@ fn open_frame(asn: u32, hold: u16, rid: u32) -> Vec<u8> {
 
 pub(crate) enum Ev {
     Input(Input),
-    RawOpen(u32, u16, u32),
+    RawOpen(Vec<u8>),
     Wait(u64),
     Bad,
 }
@@ -182,10 +190,25 @@ pub(crate) fn parse_ev(t: &Term) -> Ev {
         Some("open") => match t.tagged("open") {
             Some([a, h, r]) => match (n(a), n(h), n(r)) {
                 (Some(a), Some(h), Some(r)) if a <= u32::MAX as u64 && h <= 65535 && r <= u32::MAX as u64 => {
-                    Ev::RawOpen(a as u32, h as u16, r as u32)
+                    Ev::RawOpen(open_frame(a as u32, h as u16, r as u32))
                 }
                 _ => Ev::Bad,
             },
+            _ => Ev::Bad,
+        },
+        Some("open-wire") => match t.tagged("open-wire") {
+            Some([a2, c4, h, r]) => {
+                let cap4 = match c4.as_atom() {
+                    Some("none") => Some(None),
+                    _ => n(c4).filter(|v| *v <= u32::MAX as u64).map(|v| Some(v as u32)),
+                };
+                match (n(a2), cap4, n(h), n(r)) {
+                    (Some(a2), Some(cap4), Some(h), Some(r)) if a2 <= 65535 && h <= 65535 && r <= u32::MAX as u64 => {
+                        Ev::RawOpen(open_frame_wire(a2 as u16, cap4, h as u16, r as u32))
+                    }
+                    _ => Ev::Bad,
+                }
+            }
             _ => Ev::Bad,
         },
         Some("keepalive") => Ev::Input(Input::MessageReceived(bgp::Message::Keepalive)),
@@ -284,8 +307,7 @@ pub(crate) fn arb_step(fsm: &mut PeerFsm, role: Role, ev: Ev) -> Option<Term> {
             let outs = fsm.process(role, i);
             Some(Term::tag("fsm", vec![pouts(&outs)]))
         }
-        Ev::RawOpen(a, h, r) => {
-            let frame = open_frame(a, h, r);
+        Ev::RawOpen(frame) => {
             let mut codec = bgp::PeerCodec::new();
             let mut buf = bytes::BytesMut::from(&frame[..]);
             let parsed = match codec.try_parse(&mut buf) {
@@ -474,8 +496,7 @@ fn run_case_c08(line: &str) -> String {
                             outs,
                         )
                     }
-                    Ev::RawOpen(a, h, r) => {
-                        let frame = open_frame(a, h, r);
+                    Ev::RawOpen(frame) => {
                         let mut codec = bgp::PeerCodec::new();
                         let mut buf = bytes::BytesMut::from(&frame[..]);
                         match codec.try_parse(&mut buf) {
